@@ -2,8 +2,8 @@
 # Runs the repository's own test suite (hooks OFF) and prints one summary line; exit 1 on any failure.
 export GOFLAGS=-mod=mod GOPROXY=off
 fail=0
-( cd /repo && go test -vet=off -count=1 . ./lib ) > /tmp/repotest.$$ 2>&1 || fail=1
-( cd /repo/v2 && go test -vet=off -count=1 . ./jd ) >> /tmp/repotest.$$ 2>&1 || fail=1
+( cd "${VH_REPO_DIR:-/repo}" && go test -vet=off -count=1 . ./lib ) > /tmp/repotest.$$ 2>&1 || fail=1
+( cd "${VH_REPO_DIR:-/repo}/v2" && go test -vet=off -count=1 . ./jd ) >> /tmp/repotest.$$ 2>&1 || fail=1
 grep -E "^(ok|FAIL|---)" /tmp/repotest.$$ | head -20
 rm -f /tmp/repotest.$$
 if [ $fail = 1 ]; then echo "REPO SUITE: FAIL"; exit 1; fi
